@@ -29,7 +29,7 @@ type MSCall struct {
 	Idx     int
 	Who     string
 	At      time.Time // (virtual) time at which the call began
-	Op      string // load | loadlatest | store
+	Op      string    // load | loadlatest | store
 	ID      string
 	Created int64
 	In      *appencryption.EnvelopeKeyRecord
@@ -83,11 +83,11 @@ type Metastore struct {
 	mu     sync.Mutex
 	calls  []MSCall
 	n      int
-	Faults map[int]string // call index -> fault kind
+	Faults map[int]string        // call index -> fault kind
 	Delays map[int]time.Duration // call index -> (virtual) latency before the call executes
 	// ReadFaultIn > 0 makes the n-th read (Load/LoadLatest) from now fail with a transient error; writes are unaffected
 	ReadFaultIn int
-	Latency func(op string) time.Duration // optional random latency source
+	Latency     func(op string) time.Duration // optional random latency source
 	// Gate, when set, is called before every call is executed (outside the monitor's mutex);
 	// a scheduler blocks here to decide which pending call goes next.
 	Gate func(c *MSCall)
@@ -208,7 +208,11 @@ func (m *Metastore) Store(ctx context.Context, id string, created int64, e *appe
 func (m *Metastore) N() int { m.mu.Lock(); defer m.mu.Unlock(); return m.n }
 
 // Calls returns a copy of the retained call log.
-func (m *Metastore) Calls() []MSCall { m.mu.Lock(); defer m.mu.Unlock(); return append([]MSCall(nil), m.calls...) }
+func (m *Metastore) Calls() []MSCall {
+	m.mu.Lock()
+	defer m.mu.Unlock()
+	return append([]MSCall(nil), m.calls...)
+}
 
 // CallsFrom returns the retained calls with index >= from.
 func (m *Metastore) CallsFrom(from int) []MSCall {
